@@ -49,7 +49,8 @@ fn check_chain_inner(widths: &[usize]) -> Result<(), String> {
     }
     let last = *widths.last().unwrap();
     let want = default_stops(last);
-    let hidden = vt.verif_state().tabs;
+    let mut hidden = vt.verif_state().tabs;
+    hidden.sort();
     if hidden != want {
         return Err(format!("widths {:?}: tab stops {:?}, a fresh {}-column terminal has {:?}", widths, hidden, last, want));
     }
